@@ -74,15 +74,18 @@ ArtifactRefsItsCertificate(o) ==
         o.certs[i].id = o.arts[a].cert /\ o.certs[i].entity = o.arts[a].entity
 
 (* C16 -- attribution *)
+(* the listed known finding covers exactly: a VALID signature (some registered party's key verifies *)
+(* it for this open message) stored under another registered party's name.  A row whose signature   *)
+(* nobody's key verifies (owner = -1) is never excused.                                             *)
 Attribution(o) ==
     \A s \in DOMAIN o.sigs :
         \/ o.sigs[s].owner = o.sigs[s].label
-        \/ KnownFor([ev |-> "SigRow", relabelled |-> TRUE])
+        \/ (o.sigs[s].owner >= 0 /\ KnownFor([ev |-> "SigRow", relabelled |-> TRUE]))
 OnePlace(o) ==
     \A a, b \in DOMAIN o.sigs :
         (o.sigs[a].entity = o.sigs[b].entity /\ o.sigs[a].sigma = o.sigs[b].sigma
             /\ o.sigs[a].label # o.sigs[b].label)
-        => KnownFor([ev |-> "SigRow", relabelled |-> TRUE])
+        => (o.sigs[a].owner >= 0 /\ KnownFor([ev |-> "SigRow", relabelled |-> TRUE]))
 
 (* which clauses this run enforces: the check of each property enforces that property's clauses *)
 Prop == IOEnv.PROP
@@ -126,14 +129,18 @@ KeepsOthers(p, e) ==
             LET r == p.sigs[s] IN
             (r.entity = e.result.entity /\ r.owner = r.label /\ r.owner # e.action.who)
                 => \/ \E t \in DOMAIN e.obs.sigs : e.obs.sigs[t] = r
-                   \/ (e.action.who # e.action.label /\ KnownFor([ev |-> "SigRow", relabelled |-> TRUE]))
+                   \/ (e.action.who # e.action.label /\ e.action.variant = "ok"
+                          /\ KnownFor([ev |-> "SigRow", relabelled |-> TRUE]))
 
 (* C16: the published signer list names only parties whose own key signed *)
 SignerListHonest(p, o) ==
     \A i \in NewCerts(p, o) :
         o.certs[i].kind = "std" =>
             \/ Range(o.certs[i].signers) \subseteq OwnersFor(p, o.certs[i].entity)
-            \/ KnownFor([ev |-> "SigRow", relabelled |-> TRUE])
+            \/ /\ \A q \in Range(o.certs[i].signers) :       \* every listed name has a row holding a valid signature
+                     \E s \in DOMAIN p.sigs : p.sigs[s].entity = o.certs[i].entity /\ p.sigs[s].label = q
+                                               /\ p.sigs[s].owner >= 0
+               /\ KnownFor([ev |-> "SigRow", relabelled |-> TRUE])
 
 StepOk(p, e) ==
     /\ AppendOnly(p, e.obs)
